@@ -38,6 +38,11 @@ TEXTS = {
     'nv2': ('PAYROLL EXTRA', 'PAYROLL EXTRA'),
     'nv3': ('SOMETHING ELSE 9', 'SOMETHING ELSE 9'),
     'nv4': ('ALFA REFUND', 'ALFA REFUND'),
+    # wallet-prefixed descriptions (a budget may strip the prefix with a field transform before rules are matched)
+    'apA': ('APLPAY ALFA STORE', 'APLPAY ALFA STORE'),
+    'apX': ('APLPAY ZULU BAR', 'APLPAY ZULU BAR'),
+    'nvp': ('APLPAY ALFA POPUP', 'APLPAY ALFA POPUP'),
+    'nvq': ('APLPAY OMEGA 7', 'APLPAY OMEGA 7'),
 }
 # id -> (text under '.', cents | None, text under ',', cents | None)
 AMOUNTS = {
